@@ -1,9 +1,11 @@
 //! C09 correspondence: run the real `KeepOptions::apply` (public API) on generated
 //! cases.  Sub-command `cal`: civil fields and span addition of jiff for the
-//! calendar validation.
+//! calendar validation.  Sub-command `forget`: the command level — `Grouped::from_items`,
+//! `ForgetGroups::from_grouped_snapshots_with_retention`, `ForgetGroups::from_snapshots`,
+//! `ForgetGroups::into_forget_ids` (all public API).
 use rustic_core::jiff::{Span, Timestamp, Zoned, tz::{Offset, TimeZone}};
 use rustic_core::repofile::{DeleteOption, SnapshotFile, StringList};
-use rustic_core::KeepOptions;
+use rustic_core::{ForgetGroups, ForgetSnapshot, Group, Grouped, KeepOptions, SnapshotGroup, SnapshotGroupCriterion};
 use std::str::FromStr;
 use verif_harness::*;
 
@@ -30,8 +32,8 @@ fn taglist(t: &mut Toks) -> StringList {
     }
 }
 
-fn apply_case(line: &str) -> String {
-    let mut t = Toks::new(line);
+/// `now 0 <9 counts> <9 spans> keep_none delete_unchanged <tag lists> <id prefixes>`
+fn keep_options(t: &mut Toks) -> (Zoned, KeepOptions) {
     let now = zoned(t.i(), t.i());
     let mut k = KeepOptions::default();
     let mut cnt = [None; 9];
@@ -52,7 +54,7 @@ fn apply_case(line: &str) -> String {
     let mut w = [None; 9];
     for x in w.iter_mut() {
         if t.u() == 1 {
-            *x = Some(span(&mut t));
+            *x = Some(span(t));
         }
     }
     k.keep_within = w[0];
@@ -67,7 +69,7 @@ fn apply_case(line: &str) -> String {
     k.keep_none = t.u() == 1;
     k.delete_unchanged = t.u() == 1;
     let ntl = t.u();
-    k.keep_tags = (0..ntl).map(|_| taglist(&mut t)).collect();
+    k.keep_tags = (0..ntl).map(|_| taglist(t)).collect();
     let nids = t.u();
     k.keep_ids = (0..nids)
         .map(|_| {
@@ -80,21 +82,51 @@ fn apply_case(line: &str) -> String {
                 .collect::<String>()
         })
         .collect();
+    (now, k)
+}
+
+// strings of the group key fields; number -> string keeps the order (0 = the empty string)
+fn host_str(n: u64) -> String {
+    if n == 0 { String::new() } else { format!("h{n:02}") }
+}
+fn label_str(n: u64) -> String {
+    if n == 0 { String::new() } else { format!("l{n:02}") }
+}
+fn path_str(n: u64) -> String {
+    if n == 0 { String::new() } else { format!("/p{n}") }
+}
+
+/// `ns` then per snapshot `inst off id <tags> del tree`, and with `ext`: `host label <paths>`
+fn snapshots(t: &mut Toks, ext: bool) -> Vec<SnapshotFile> {
     let ns = t.u();
     let mut snaps = Vec::new();
     for _ in 0..ns {
         let mut sn = SnapshotFile::default();
         sn.time = zoned(t.i(), t.i());
         sn.id = id_from_u16(t.u() as u16).into();
-        sn.tags = taglist(&mut t);
+        sn.tags = taglist(t);
         sn.delete = match t.u() {
             0 => DeleteOption::NotSet,
             1 => DeleteOption::Never,
             _ => DeleteOption::After(zoned(t.i(), 0)),
         };
         sn.tree = id_from_u64(t.u()).into();
+        if ext {
+            sn.hostname = host_str(t.u());
+            sn.label = label_str(t.u());
+            let k = t.u();
+            let v: Vec<String> = (0..k).map(|_| path_str(t.u())).collect();
+            sn.paths = if v.is_empty() { StringList::default() } else { StringList::from_str(&v.join(",")).unwrap() };
+        }
         snaps.push(sn);
     }
+    snaps
+}
+
+fn apply_case(line: &str) -> String {
+    let mut t = Toks::new(line);
+    let (now, k) = keep_options(&mut t);
+    let snaps = snapshots(&mut t, false);
     match k.apply(snaps, &now) {
         Err(_) => "err".to_string(),
         Ok(res) => {
@@ -110,6 +142,61 @@ fn apply_case(line: &str) -> String {
             s
         }
     }
+}
+
+fn key_str(g: &SnapshotGroup) -> String {
+    let o = |x: &Option<String>| x.as_ref().map_or("-".to_string(), |s| format!("[{s}]"));
+    let l = |x: &Option<StringList>| {
+        x.as_ref().map_or("-".to_string(), |s| format!("[{}:{}]", s.iter().count(), s))
+    };
+    format!("h={},l={},p={},t={}", o(&g.hostname), o(&g.label), l(&g.paths), l(&g.tags))
+}
+
+fn groups_str(gs: &[Group<ForgetSnapshot>]) -> String {
+    gs.iter()
+        .map(|g| {
+            let mut s = key_str(&g.group_key);
+            for fs in &g.items {
+                s.push_str(&format!(
+                    " {}:{}:{}",
+                    id_to_u16(&fs.snapshot.id),
+                    u8::from(fs.keep),
+                    fs.reasons.join("+").replace(' ', "_")
+                ));
+            }
+            s
+        })
+        .collect::<Vec<_>>()
+        .join(" ; ")
+}
+
+fn ids_str(ids: &[rustic_core::repofile::SnapshotId]) -> String {
+    ids.iter().map(|i| id_to_u16(i).to_string()).collect::<Vec<_>>().join(",")
+}
+
+/// `forget`: `<4 criterion flags> <keep options> <snapshots with host label paths>` ->
+/// `ok <groups> | ids=.. | fs=<group> | fsids=..` (groups: `key id:keep:reasons ...` joined by ` ; `)
+fn forget_case(line: &str) -> String {
+    let mut t = Toks::new(line);
+    let mut crit = SnapshotGroupCriterion::new();
+    crit.hostname = t.u() == 1;
+    crit.label = t.u() == 1;
+    crit.paths = t.u() == 1;
+    crit.tags = t.u() == 1;
+    let (now, k) = keep_options(&mut t);
+    let snaps = snapshots(&mut t, true);
+    let fs = ForgetGroups::from_snapshots(snaps.clone(), &now);
+    let fs_groups = groups_str(&fs.0);
+    let fs_ids = ids_str(&fs.into_forget_ids());
+    let grouped = Grouped::from_items(snaps, crit);
+    let main = match ForgetGroups::from_grouped_snapshots_with_retention(grouped, &k, &now) {
+        Err(_) => "err".to_string(),
+        Ok(fg) => {
+            let g = groups_str(&fg.0);
+            format!("ok {} | ids={}", g, ids_str(&fg.into_forget_ids()))
+        }
+    };
+    format!("{main} | fs={fs_groups} | fsids={fs_ids}")
 }
 
 /// `cal <secs> <off> y mo w d h mi s` -> civil fields and timestamp after adding the span
@@ -135,6 +222,8 @@ fn main() {
     let mode = std::env::args().nth(2).unwrap_or_else(|| "apply".into());
     if mode == "cal" {
         for_each_case(cal_case);
+    } else if mode == "forget" {
+        for_each_case(forget_case);
     } else {
         for_each_case(apply_case);
     }
